@@ -554,6 +554,16 @@ var hugeProp = vp.Register(vp.Prop[Case]{
 })
 
 func TestHuge(t *testing.T) { vp.Run(t, hugeProp) }
+// TestConcurrent (variant "conc", -race): the sequential oracle from 8
+// goroutines at once, each on its own objects; objects of one type must not
+// share mutable state.
+func TestConcurrent(t *testing.T) {
+	if vp.Variant() != "conc" {
+		t.Skip("runs in the conc variant (-race)")
+	}
+	vp.RunConcurrent(t, historyProp, 300, 32, 8)
+}
+
 func TestLongHistory(t *testing.T) { vp.Run(t, longProp) }
 func TestHistory(t *testing.T)     { vp.Run(t, historyProp) }
 func TestReplay(t *testing.T)  { vp.Replay(t) }
